@@ -203,6 +203,41 @@ Definition parse_bool (s : bytes) : option bool :=
   else if mem_bytes s [bs "0"; bs "f"; bs "F"; bs "FALSE"; bs "false"; bs "False"] then Some false
   else None.
 
+(* big_decoder.go: the cost limits of the exact destinations (read from the source into the tables:
+   AReadBigFloatInt / PsBigGuarded carry them) *)
+Definition max_bigint_bits : N := 65536.
+Definition max_text_exponent : N := 16384.
+
+(* exponentTooLarge(s): the text after the last exponent mark (e E p P; only p P behind a 0x prefix), when it is
+   a decimal int64, exceeds the limit in magnitude *)
+Definition exp_mark (hex : bool) (b : byte) : bool :=
+  Byte.eqb b "p" || Byte.eqb b "P" || (negb hex && (Byte.eqb b "e" || Byte.eqb b "E")).
+
+Fixpoint after_last_mark (hex : bool) (s : bytes) : option bytes :=
+  match s with
+  | [] => None
+  | x :: r => match after_last_mark hex r with
+              | Some t => Some t
+              | None => if exp_mark hex x then Some r else None
+              end
+  end.
+
+Definition hex_prefix (s : bytes) : bool :=
+  let m := match s with x :: r => if Byte.eqb x b_plus || Byte.eqb x b_minus then r else s | [] => s end in
+  match m with
+  | a :: b :: _ => Byte.eqb a "0" && (Byte.eqb b "x" || Byte.eqb b "X")
+  | _ => false
+  end.
+
+Definition exponent_too_large (limit : N) (s : bytes) : bool :=
+  match after_last_mark (hex_prefix s) s with
+  | None => false
+  | Some t => match go_parse_int t 64 with
+              | Some n => (Z.of_N limit <? n) || (n <? - Z.of_N limit)
+              | None => false
+              end
+  end.
+
 (* ------------------------------------------------------------------ oracles (standard library, hardware)
    One function parameter: [orc fn arg] = the status byte '+' (success) or '!' (the Go function
    reported failure) followed by the result text; None = not in the table.  The functions:
@@ -210,7 +245,7 @@ Definition parse_bool (s : bytes) : option bool :=
                 as N | P | M | F<text>
      f2i:<kind> T(f) for f = ParseFloat(arg, 64): the Go (hardware) float-to-integer conversion
      pc64/pc128 complexconv.ParseComplex: <re>,<im>
-     bf         new(big.Float).SetString(arg) -> Text('g', -1);  bfint: its Int(nil)
+     bf         new(big.Float).SetString(arg) -> Text('g', -1);  bfint: its Int(nil);  bfexp: its MantExp(nil)
      nf         big.NewFloat(float64(arg as int64)).Text('g', -1)
      rat        new(big.Rat).SetString(arg).String();  ratf: SetFloat64(ParseFloat(arg, 64))
      unix       time.Unix(0, arg) in the Local zone: y,mo,d,h,mi,s,ns,utc
@@ -637,7 +672,7 @@ Definition model_switch (r : routine) : switch :=
   | RtBigInt => sw (
       on digit_tags (ADigit NtBigInt) ++ on ["n"]%byte (AConst CNil) ++ on ["e"; "f"]%byte (AConst CBig0) ++
       on ["t"]%byte (AConst CBig1) ++ on ["i"]%byte (AReadInt KInt64 NtBigInt) ++
-      on ["l"]%byte (AReadBigInt NtBigInt) ++ on ["d"]%byte (AReadBigFloat NtBigInt) ++
+      on ["l"]%byte (AReadBigInt NtBigInt) ++ on ["d"]%byte (AReadBigFloatInt max_bigint_bits) ++
       on ["u"]%byte (AParseChar PBigInt 0 NtBigInt) ++ on ["s"]%byte (AParseStr PBigInt 0 NtBigInt))
   | RtBigFloat => sw (
       on digit_tags (ADigit NtBigFloat) ++ on ["n"]%byte (AConst CNil) ++ on ["e"; "f"]%byte (AConst CBig0) ++
@@ -862,7 +897,8 @@ Definition parse_str (p : pfn) (bits : Z) (d : nty) (s : bytes) : sres :=
   | PC128 => lift (o_complex orc false s) (fun c => SV (XC128 (fst c) (snd c)))
   | PBigInt => match parse_int s with Some z => SV (XPtr (XBigInt z)) | None => SE EParse end
   | PBigFloat => lift (o_text orc (bs "bf") s) (fun t => SV (XPtr (XBigFloat t)))
-  | PBigRat => lift (o_text orc (bs "rat") s) (fun t => SV (XPtr (XBigRat t)))
+  | PBigRat => if exponent_too_large max_text_exponent s then SE EParse
+               else lift (o_text orc (bs "rat") s) (fun t => SV (XPtr (XBigRat t)))
   | PTime => lift (o_time orc (bs "ptime") s) SV
   | PUuid => lift (o_text orc (bs "uuid") s) (fun t => SV (XUuid t))
   end.
@@ -933,9 +969,18 @@ Definition run_action (s : sleaf) (a : action) (w : wire) : sres :=
           lift (o_text orc (bs "bf") text) (fun t =>
             match d with
             | NtBigFloat | NtIface => SV (XPtr (XBigFloat t))
-            | NtBigInt => lift (o_int orc (bs "bfint") text) (fun z => SV (XPtr (XBigInt z)))
             | _ => SUnk 8
             end)
+      | _ => SUnk 7
+      end
+  | AReadBigFloatInt limit =>
+      match w with
+      | WInt _ | WLong _ | WDouble _ =>
+          let text := num_text w in
+          lift (o_text orc (bs "bf") text) (fun _ =>
+          lift (o_int orc (bs "bfexp") text) (fun e =>
+            if Z.of_N limit <? e then SE ECast      (* refused before bf.Int builds every bit *)
+            else lift (o_int orc (bs "bfint") text) (fun z => SV (XPtr (XBigInt z)))))
       | _ => SUnk 7
       end
   | AParseChar p bits d => match w with WChar c => parse_str p bits d c | _ => SUnk 7 end
